@@ -33,7 +33,7 @@ BOUNDS = {"quick": "300 programs of up to 10 steps for each of 8 text format var
           "thorough": "8000 programs of up to 25 steps per text variant, files of up to 25 records; 9600 BAM programs on files of up to 16 records"}
 BUDGET_S = {"quick": 200, "thorough": 1500}
 
-FMTS = ["bed3", "bed6", "narrowpeak", "fastq", "fasta2", "vcf", "vcf-typed", "sam"]
+FMTS = ["bed3", "bed6", "narrowpeak", "fastq", "fasta2", "vcf", "vcf-typed", "sam", "gfa"]
 
 
 def _where(e):
